@@ -130,7 +130,8 @@ Proof. apply to_rel_aux_ints. Qed.
 Definition nint (s : nstate) : bool := ints (n_out s) && negb (n_waitf s).
 Lemma flush_nint s c m : nint s = true -> intm m = true -> nint (flush s c m) = true.
 Proof.
-  unfold nint, flush. intros H Hm. btrue. destruct (n_waitf s) eqn:Ew; [discriminate |].
+  unfold nint, flush. intros H Hm. apply andb_true_iff in H. destruct H as [H H2].
+  destruct (n_waitf s) eqn:Ew; [discriminate |].
   destruct (0 <? n_wait s); cbn [n_out n_waitf]; rewrite ?ints_app, ?ints_cons, ?H, ?Hm; reflexivity.
 Qed.
 Lemma nstep_nint s m : nint s = true -> intm m = true -> nint (nstep s m) = true.
@@ -142,7 +143,8 @@ Proof.
   - destruct (_ && _); [exact H | apply flush_nint; auto].
   - destruct (depth _ _) as [| d]; [exact H |]. destruct d; [apply flush_nint; auto | apply Hopen].
   - destruct (depth _ _) as [| d]; [apply flush_nint; auto | apply Hopen].
-  - unfold nint in *. cbn [n_out n_waitf]. rewrite Hf. btrue. destruct (n_waitf s); [discriminate |]. auto.
+  - unfold nint in *. cbn [n_out n_waitf]. rewrite Hf. apply andb_true_iff in H. destruct H as [H1 H2].
+    rewrite H1. destruct (n_waitf s); [discriminate | reflexivity].
 Qed.
 Lemma remove_last_on_ints k l : ints l = true -> ints (fst (remove_last_on k l)) = true.
 Proof.
@@ -168,7 +170,6 @@ Proof.
     - reflexivity. }
   set (s := fold_left nstep l _) in *. unfold nint in Hs. btrue. apply cleanup_ints.
   destruct (0 <? n_wait s); [| assumption]. rewrite ints_app, ints_cons. btrue; auto.
-  destruct (n_waitf s); [discriminate | reflexivity].
 Qed.
 
 (* pad *)
@@ -236,7 +237,744 @@ Qed.
 Lemma seq_split_ints l caps : ints l = true -> intss (seq_split l caps) = true.
 Proof.
   intro H. unfold seq_split. destruct (split_outer caps l [] [] []) as [[acc wm] cur] eqn:E.
-  destruct (split_outer_ints _ _ _ _ _ _ _ _ H eq_refl eq_refl E) as [Ha [Hw Hc]].
+  destruct (split_outer_ints caps l [] [] [] acc wm cur H eq_refl eq_refl E) as [Ha [Hw Hc]].
   assert (Hcw : ints (cur ++ wm) = true) by (rewrite ints_app; btrue; auto).
   destruct (cur ++ wm); [exact Ha |]. rewrite intss_app. btrue; auto. cbn [intss forallb]. rewrite Hcw. reflexivity.
+Qed.
+
+(* ---------------------------------------------------------------- Pairing.v *)
+(* generic facts on insertion-ordered dictionaries *)
+Section DictAll.
+  Context {K V : Type} (eqb : K -> K -> bool) (P : V -> bool).
+  Definition dall (d : list (K * V)) : bool := forallb (fun kv => P (snd kv)) d.
+  Lemma dget_dall k d v : dall d = true -> dget eqb k d = Some v -> P v = true.
+  Proof.
+    induction d as [| [k' v'] d IH]; cbn [dget dall forallb snd]; intros H E; [discriminate |].
+    apply andb_true_iff in H. destruct H as [H1 H2]. destruct (eqb k k'); [inversion E; subst; exact H1 | auto].
+  Qed.
+  Lemma dset_dall k v d : dall d = true -> P v = true -> dall (dset eqb k v d) = true.
+  Proof.
+    intros H Hv. induction d as [| [k' v'] d IH]; cbn [dset dall forallb snd]; [rewrite Hv; reflexivity |].
+    cbn [dall forallb snd] in H. apply andb_true_iff in H. destruct H as [H1 H2].
+    destruct (eqb k k'); cbn [forallb snd]; apply andb_true_iff; split; auto.
+  Qed.
+End DictAll.
+
+Definition pint (p : pairing) : bool :=
+  intm (p_first p) && match snd p with Some (_, o) => intm o | None => true end.
+Definition chints (c : chst) : bool := forallb pint (c_pairs c).
+
+Lemma index_from_In {A} (l : list A) : forall i j x, In (j, x) (index_from i l) -> In x l.
+Proof.
+  induction l as [| a l IH]; intros i j x H; cbn [index_from] in H; [contradiction |].
+  destruct H as [H | H]; [inversion H; left; reflexivity | right; eauto].
+Qed.
+
+Lemma pair_step_ints types impute st im :
+  dall chints st = true -> intm (snd im) = true -> dall chints (pair_step types impute st im) = true.
+Proof.
+  destruct im as [i m]. cbn [snd]. intros Hst Hm. unfold pair_step.
+  destruct (negb (tmem (m_type m) types)); [exact Hst |].
+  apply dset_dall; [exact Hst |].
+  assert (Hcs : chints (match dget Z.eqb (m_chan m) st with Some c => c | None => mkch [] [] end) = true).
+  { destruct (dget Z.eqb (m_chan m) st) eqn:E; [eapply dget_dall; eauto | reflexivity]. }
+  set (cs := match dget Z.eqb (m_chan m) st with Some c => c | None => mkch [] [] end) in *.
+  assert (Hnew : pint ((i, m), None) = true) by (unfold pint, p_first; cbn [fst snd]; rewrite Hm; reflexivity).
+  assert (Happ : forall c, chints c = true -> forall o, chints (mkch (c_pairs c ++ [((i, m), None)]) o) = true).
+  { intros c Hc o. unfold chints in *. cbn [c_pairs]. rewrite forallb_app, Hc. cbn [forallb]. rewrite Hnew. reflexivity. }
+  assert (Hclose : forall idx c, intm (snd c) = true ->
+            forallb pint (set_nth idx (close_with c) (c_pairs cs)) = true).
+  { intros idx c Hc. apply set_nth_forallb; [| exact Hcs]. intros p Hp. unfold pint, close_with, p_first in *.
+    cbn [fst snd]. apply andb_true_iff in Hp. destruct Hp as [Hp _]. rewrite Hp. destruct c; exact Hc. }
+  destruct (m_type m); try (apply Happ; exact Hcs).
+  - destruct (dget Z.eqb (m_note m) (c_open cs)); [| exact Hcs]. unfold chints. cbn [c_pairs]. apply Hclose. exact Hm.
+  - apply Happ. destruct (dget Z.eqb (m_note m) (c_open cs)); [| exact Hcs].
+    destruct impute; [| exact Hcs]. unfold chints. cbn [c_pairs]. apply Hclose. exact Hm.
+Qed.
+
+Lemma pairings_sorted_ints types std impute s : ints s = true ->
+  forallb (fun kv => forallb pint (snd kv)) (pairings_sorted types std impute s) = true.
+Proof.
+  intro H. unfold pairings_sorted.
+  assert (Hst : dall chints (fold_left (pair_step types impute) (index_from 0 s) []) = true).
+  { apply (fold_left_inv (fun st => dall chints st = true) (fun im : nat * msg => intm (snd im) = true)).
+    - intros; apply pair_step_ints; assumption.
+    - apply Forall_forall. intros [j x] Hx. cbn [snd]. apply index_from_In in Hx.
+      exact (proj1 (ints_In s) H x Hx).
+    - reflexivity. }
+  set (st := fold_left _ _ _) in *. clearbody st. induction st as [| [k c] st IH]; [reflexivity |].
+  cbn [dall forallb snd] in Hst. apply andb_true_iff in Hst. destruct Hst as [H1 H2].
+  cbn [map forallb snd fst]. apply andb_true_iff. split; [| apply IH; exact H2].
+  unfold chints in H1. clear - H1. induction (c_pairs c) as [| p ps IHp]; [reflexivity |].
+  cbn [forallb] in H1. apply andb_true_iff in H1. destruct H1 as [Hp Hps].
+  cbn [map forallb]. apply andb_true_iff. split; [| auto].
+  unfold impute_close. destruct (snd p) eqn:Es; [exact Hp |].
+  destruct (impute && is_on (p_first p)); [| exact Hp].
+  unfold pint, p_first in *. cbn [fst snd]. apply andb_true_iff in Hp. destruct Hp as [Hp _]. rewrite Hp. exact Hp.
+Qed.
+
+Lemma pairings_In types std impute s k ps p : ints s = true ->
+  In (k, ps) (pairings_sorted types std impute s) -> In p ps -> pint p = true.
+Proof.
+  intros H Hk Hp. pose proof (pairings_sorted_ints types std impute s H) as Hall.
+  rewrite forallb_forall in Hall. specialize (Hall _ Hk). cbn [snd] in Hall.
+  rewrite forallb_forall in Hall. auto.
+Qed.
+
+Lemma lookup_nat_In {V} i (l : list (nat * V)) v : lookup_nat i l = Some v -> In (i, v) l.
+Proof.
+  induction l as [| [j w] l IH]; cbn [lookup_nat]; intro E; [discriminate |].
+  destruct (Nat.eqb i j) eqn:Eij; [apply Nat.eqb_eq in Eij; inversion E; subst; left; reflexivity | right; auto].
+Qed.
+
+Lemma cutoff_ints l mx red : ints l = true -> ints (cutoff l mx red) = true.
+Proof.
+  intro H. unfold cutoff. apply sort_abs_ints. pose proof (sort_abs_ints l H) as Hs.
+  set (s := sort_abs l) in *. apply ints_In. intros m Hm. apply in_map_iff in Hm.
+  destruct Hm as [[i x] [Ex Hx]]. cbn [fst snd] in Ex. apply index_from_In in Hx.
+  pose proof (proj1 (ints_In s) Hs x Hx) as Hxi.
+  destruct (lookup_nat i _) as [[t f] |] eqn:El; [| subst; exact Hxi].
+  apply lookup_nat_In in El. unfold cutoff_updates in El. apply in_flat_map in El.
+  destruct El as [[k ps] [Hk El]]. cbn [snd] in El. apply in_flat_map in El. destruct El as [p [Hp El]].
+  pose proof (pairings_In _ _ _ _ _ _ _ Hs Hk Hp) as Hpi.
+  destruct (snd p) as [[[j |] off] |]; try contradiction.
+  destruct (mx <? _); [| contradiction]. destruct El as [El | []]. inversion El; subst.
+  unfold pint in Hpi. apply andb_true_iff in Hpi. destruct Hpi as [Hpi _]. exact Hpi.
+Qed.
+
+Lemma qnl_channel_ints values dne l : forallb pint l = true -> ints (qnl_channel values dne l) = true.
+Proof.
+  induction l as [| p l IH]; intro H; [reflexivity |]. cbn [forallb] in H. apply andb_true_iff in H.
+  destruct H as [Hp Hl]. specialize (IH Hl). cbn [qnl_channel].
+  unfold pint in Hp. apply andb_true_iff in Hp. destruct Hp as [Hp1 Hp2].
+  destruct (qnl_valid _ _ _ _); [exact IH |].
+  destruct (snd p) as [[j off] |]; rewrite !ints_cons; rewrite ?Hp1, ?IH; [| reflexivity].
+  unfold intm in *. cbn [set_time m_tf]. rewrite Hp2. reflexivity.
+Qed.
+Lemma quantise_note_lengths_ints l values std dne :
+  ints l = true -> ints (quantise_note_lengths l values std dne) = true.
+Proof.
+  intro H. unfold quantise_note_lengths. pose proof (sort_abs_ints l H) as Hs.
+  apply sort_abs_ints. rewrite ints_app. apply andb_true_iff. split; [| apply ints_filter; exact Hs].
+  apply ints_flat_map. intros [k ps] Hk. cbn [snd]. apply qnl_channel_ints.
+  apply forallb_forall. intros p Hp. eapply pairings_In; eauto.
+Qed.
+
+Lemma qstep_ints steps s m : ints (q_out s) = true -> intm m = true -> ints (q_out (qstep steps s m)) = true.
+Proof.
+  intros H Hm. unfold qstep.
+  assert (Hadd : forall x, intm x = true -> ints (q_out s ++ [x]) = true)
+    by (intros x Hx; rewrite ints_app, ints_cons, H, Hx; reflexivity).
+  destruct (m_type m); try (cbn [q_out]; apply Hadd; exact Hm).
+  - destruct (dget k2_eqb _ (q_open s)); [| exact H]. cbn [q_out]. apply Hadd. exact Hm.
+  - set (s1 := match dget k2_eqb (m_chan m, m_note m) (q_open s) with Some _ => _ | None => s end).
+    assert (H1 : ints (q_out s1) = true).
+    { unfold s1. destruct (dget k2_eqb _ (q_open s)); [| exact H]. cbn [q_out]. apply Hadd. exact Hm. }
+    destruct (match dget k2_eqb _ (q_tim s1) with None => true | Some l => _ end); [| exact H1].
+    cbn [q_out]. rewrite ints_app, ints_cons, H1. unfold intm in *. cbn [set_time m_tf]. rewrite Hm. reflexivity.
+Qed.
+Lemma remove_indices_In {A} (l : list A) idx x : In x (remove_indices l idx) -> In x l.
+Proof.
+  unfold remove_indices. intro H. apply in_map_iff in H. destruct H as [[i y] [E H]]. cbn [snd] in E. subst.
+  apply filter_In in H. destruct H as [H _]. eapply index_from_In; eauto.
+Qed.
+Lemma quantise_ints l steps r : ints l = true -> quantise l steps = Ok r -> ints r = true.
+Proof.
+  intros H E. unfold quantise in E. destruct steps as [| st steps].
+  - destruct l; inversion E. reflexivity.
+  - inversion E; subst. clear E. apply sort_abs_ints.
+    set (s := fold_left _ _ _).
+    assert (Hs : ints (q_out s) = true).
+    { apply (fold_left_inv (fun s => ints (q_out s) = true) (fun m => intm m = true)).
+      - intros; apply qstep_ints; assumption.
+      - apply ints_Forall; exact H.
+      - reflexivity. }
+    revert Hs. apply ints_incl. intros m Hm. left. eapply remove_indices_In; eauto.
+Qed.
+
+(* ---------------------------------------------------------------- Bars.v *)
+Lemma bar_init_full_ints r num den : ints r = true -> ints (fst (bar_init_full r num den)) = true.
+Proof.
+  intro H. unfold bar_init_full. pose proof (normalise_ints r H) as Hn.
+  set (n := normalise r) in *. destruct (bar_capacity num den <? dur_rel n); [exact Hn |].
+  assert (Hp : ints (if dur_rel n <? bar_capacity num den then pad n (bar_capacity num den) false else n) = true).
+  { destruct (dur_rel n <? bar_capacity num den); [apply pad_ints |]; exact Hn. }
+  set (p := if dur_rel n <? bar_capacity num den then _ else n) in *.
+  destruct (1 <? lenZ (filter is_ts p)); [exact Hp |].
+  destruct (negb _); [exact Hp |]. cbn [fst]. rewrite ints_cons. apply ints_filter. exact Hp.
+Qed.
+Lemma bar_init_ints r num den r' : ints r = true -> bar_init r num den = Ok r' -> ints r' = true.
+Proof.
+  intros H E. unfold bar_init in E. pose proof (bar_init_full_ints r num den H) as Hf.
+  destruct (bar_init_full r num den) as [x [e |]]; inversion E; subst. exact Hf.
+Qed.
+
+Definition bars_ints (bs : list bar) : bool := forallb (fun b => ints (b_rel b)) bs.
+
+Lemma sb_track_ints qnl len rel : ints rel = true ->
+  ints (fst (fst (sb_track qnl len rel))) = true /\ ints (snd (fst (sb_track qnl len rel))) = true.
+Proof.
+  intro H. unfold sb_track. pose proof (seq_split_ints rel [len] H) as Hs.
+  assert (Hq : forall p0, ints p0 = true ->
+     ints (if qnl then to_rel (quantise_note_lengths (to_abs p0) get_default_note_values PPQN true) else p0) = true).
+  { intros p0 Hp. destruct qnl; [| exact Hp]. apply to_rel_ints, quantise_note_lengths_ints, to_abs_ints, Hp. }
+  destruct (seq_split rel [len]) as [| p0 [| p1 rest]]; cbn [intss forallb] in Hs; cbn [fst snd].
+  - split; [apply Hq |]; reflexivity.
+  - btrue. split; [apply Hq; assumption | reflexivity].
+  - btrue. split; [apply Hq; assumption | assumption].
+Qed.
+
+Lemma collect_bars_ints num den key (bars : list (result (list msg))) : forall newbars,
+  fold_right (fun b acc' => match b, acc' with
+                            | Ok r, Ok l => Ok (mkbar r num den key :: l)
+                            | Err e, _ => Err e
+                            | _, Err e => Err e end) (Ok []) bars = Ok newbars ->
+  (forall r, In (Ok r) bars -> ints r = true) -> bars_ints newbars = true.
+Proof.
+  induction bars as [| b bars IH]; intros newbars E Hb; cbn [fold_right] in E.
+  - inversion E. reflexivity.
+  - destruct b as [r | e]; [| discriminate].
+    destruct (fold_right _ _ bars) as [l | e]; [| discriminate]. inversion E; subst.
+    cbn [bars_ints forallb b_rel]. apply andb_true_iff. split; [apply Hb; left; reflexivity |].
+    apply IH; [reflexivity |]. intros r' Hr'. apply Hb. right. exact Hr'.
+Qed.
+
+Lemma sb_loop_ints fuel : forall qnl seqs tsq ksq cur num den key acc res,
+  intss seqs = true -> forallb bars_ints acc = true ->
+  sb_loop fuel qnl seqs tsq ksq cur num den key acc = Ok res -> forallb bars_ints res = true.
+Proof.
+  induction fuel as [| f IH]; intros qnl seqs tsq ksq cur num den key acc res Hs Ha E; [discriminate |].
+  cbn [sb_loop] in E.
+  destruct (match tsq with m :: r => if m_time m <=? cur then (m_num m, m_den m, r) else (num, den, tsq)
+                         | [] => (num, den, tsq) end) as [[num1 den1] tsq1].
+  destruct (match ksq with m :: r => if m_time m <=? cur then (m_key m, r) else (key, ksq)
+                         | [] => (key, ksq) end) as [key1 ksq1].
+  set (len := PPQN * num1 * 4 / den1) in *.
+  set (rounds := map (sb_track qnl len) seqs) in *.
+  assert (Hr : forall x, In x rounds -> ints (fst (fst x)) = true /\ ints (snd (fst x)) = true).
+  { intros x Hx. unfold rounds in Hx. apply in_map_iff in Hx. destruct Hx as [rel [Ex Hrel]]. subst x.
+    apply sb_track_ints. unfold intss in Hs. rewrite forallb_forall in Hs. auto. }
+  destruct (fold_right _ _ _) as [newbars | e] eqn:Ef; [| discriminate].
+  assert (Hn : bars_ints newbars = true).
+  { eapply collect_bars_ints; [exact Ef |]. intros r Hin. apply in_map_iff in Hin.
+    destruct Hin as [x [Ex Hx]]. eapply bar_init_ints; [| exact Ex]. apply Hr; exact Hx. }
+  assert (Ha' : forallb bars_ints (map (fun ab : list bar * bar => fst ab ++ [snd ab]) (combine acc newbars)) = true).
+  { apply forallb_forall. intros bs Hbs. apply in_map_iff in Hbs. destruct Hbs as [[a b] [Eb Hab]]. subst bs.
+    cbn [fst snd]. unfold bars_ints. rewrite forallb_app. apply andb_true_iff. split.
+    - apply in_combine_l in Hab. rewrite forallb_forall in Ha. apply Ha. exact Hab.
+    - apply in_combine_r in Hab. unfold bars_ints in Hn. rewrite forallb_forall in Hn.
+      cbn [forallb]. rewrite (Hn _ Hab). reflexivity. }
+  destruct (existsb _ rounds).
+  - eapply IH; [| exact Ha' | exact E]. apply forallb_forall. intros r Hin. apply in_map_iff in Hin.
+    destruct Hin as [x [Ex Hx]]. subst r. apply Hr; exact Hx.
+  - inversion E; subst. exact Ha'.
+Qed.
+
+Lemma split_bars_ints rels meta qnl bars : intss rels = true ->
+  split_bars rels meta qnl = Ok bars -> forallb bars_ints bars = true.
+Proof.
+  intros H E. unfold split_bars in E. eapply sb_loop_ints; [exact H | | exact E].
+  apply forallb_forall. intros bs Hbs. apply in_map_iff in Hbs. destruct Hbs as [x [Ex _]]. subst. reflexivity.
+Qed.
+
+(* ---------------------------------------------------------------- Store.v *)
+Lemma ints_seq_mk a r f g : ints a = true -> ints r = true -> ints_seq (mkseq a r f g) = true.
+Proof. intros Ha Hr. unfold ints_seq. cbn [s_abs s_rel]. rewrite Ha, Hr. reflexivity. Qed.
+Lemma ints_seq_abs s : ints_seq s = true -> ints (s_abs s) = true.
+Proof. unfold ints_seq. intro H. btrue. assumption. Qed.
+Lemma ints_seq_rel s : ints_seq s = true -> ints (s_rel s) = true.
+Proof. unfold ints_seq. intro H. btrue. assumption. Qed.
+
+Lemma get_abs_ints s s1 a : ints_seq s = true -> get_abs s = Ok (s1, a) -> ints_seq s1 = true /\ ints a = true.
+Proof.
+  intros H E. unfold get_abs in E. pose proof (ints_seq_abs s H) as Ha. pose proof (ints_seq_rel s H) as Hr.
+  destruct (s_abs_stale s).
+  - destruct (s_rel_stale s); [discriminate |]. inversion E; subst.
+    split; [apply ints_seq_mk |]; auto using to_abs_ints.
+  - inversion E; subst. auto.
+Qed.
+Lemma get_rel_ints s s1 r : ints_seq s = true -> get_rel s = Ok (s1, r) -> ints_seq s1 = true /\ ints r = true.
+Proof.
+  intros H E. unfold get_rel in E. pose proof (ints_seq_abs s H) as Ha. pose proof (ints_seq_rel s H) as Hr.
+  destruct (s_rel_stale s).
+  - destruct (s_abs_stale s); [discriminate |]. inversion E; subst.
+    split; [apply ints_seq_mk |]; auto using to_rel_ints.
+  - inversion E; subst. auto.
+Qed.
+Lemma upd_abs_ints s f s' : ints_seq s = true -> (forall a, ints a = true -> ints (f a) = true) ->
+  upd_abs s f = Ok s' -> ints_seq s' = true.
+Proof.
+  intros H Hf E. unfold upd_abs in E. destruct (get_abs s) as [[s1 a] | e] eqn:Eg; [| discriminate].
+  cbn [rbind] in E. inversion E; subst. destruct (get_abs_ints _ _ _ H Eg) as [H1 Ha].
+  apply ints_seq_mk; [auto | apply ints_seq_rel; exact H1].
+Qed.
+Lemma upd_rel_ints s f s' : ints_seq s = true -> (forall a, ints a = true -> ints (f a) = true) ->
+  upd_rel s f = Ok s' -> ints_seq s' = true.
+Proof.
+  intros H Hf E. unfold upd_rel in E. destruct (get_rel s) as [[s1 a] | e] eqn:Eg; [| discriminate].
+  cbn [rbind] in E. inversion E; subst. destruct (get_rel_ints _ _ _ H Eg) as [H1 Ha].
+  apply ints_seq_mk; [apply ints_seq_abs; exact H1 | auto].
+Qed.
+
+Lemma seq_normalise_ints s s' : ints_seq s = true -> seq_normalise s = Ok s' -> ints_seq s' = true.
+Proof. intros H E. eapply upd_rel_ints; [exact H | | exact E]. apply normalise_ints. Qed.
+Lemma seq_qnl_ints s v std dne s' : ints_seq s = true -> seq_qnl s v std dne = Ok s' -> ints_seq s' = true.
+Proof. intros H E. eapply upd_abs_ints; [exact H | | exact E]. intros; apply quantise_note_lengths_ints; assumption. Qed.
+Lemma seq_quantise_ints s steps s' : ints_seq s = true -> seq_quantise s steps = Ok s' -> ints_seq s' = true.
+Proof.
+  intros H E. unfold seq_quantise in E. destruct (get_abs s) as [[s1 a] | e] eqn:Eg; [| discriminate].
+  cbn [rbind] in E. destruct (get_abs_ints _ _ _ H Eg) as [H1 Ha].
+  destruct (quantise a steps) as [a' | e] eqn:Eq; [| discriminate]. cbn [rbind] in E. inversion E; subst.
+  apply ints_seq_mk; [eapply quantise_ints; eauto | apply ints_seq_rel; exact H1].
+Qed.
+Lemma seq_sort_abs_ints s s' : ints_seq s = true -> seq_sort_abs s = Ok s' -> ints_seq s' = true.
+Proof.
+  intros H E. unfold seq_sort_abs in E. destruct (get_abs s) as [[s1 a] | e] eqn:Eg; [| discriminate].
+  cbn [rbind] in E. inversion E; subst. destruct (get_abs_ints _ _ _ H Eg) as [H1 Ha].
+  apply ints_seq_mk; [apply sort_abs_ints; exact Ha | apply ints_seq_rel; exact H1].
+Qed.
+Lemma seq_copy_ints s : ints_seq s = true -> ints_seq (seq_copy s) = true.
+Proof.
+  intro H. pose proof (ints_seq_abs s H) as Ha. pose proof (ints_seq_rel s H) as Hr. unfold seq_copy.
+  destruct (s_abs_stale s), (s_rel_stale s); try reflexivity; apply ints_seq_mk; auto.
+Qed.
+
+Lemma py_insert_ints l i m : ints l = true -> intm m = true -> ints (py_insert l i m) = true.
+Proof.
+  intros Hl Hm. unfold py_insert. set (j := Z.to_nat _). destruct (ints_firstn_skipn j l Hl) as [H1 H2].
+  rewrite !ints_app, H1, H2. cbn [ints forallb]. fold (intm m). rewrite Hm. reflexivity.
+Qed.
+Lemma apply_edit_ints m f v : intm m = true -> intm (apply_edit m f v) = true.
+Proof. intro H. destruct f; first [exact H | reflexivity]. Qed.
+Lemma apply_edits_ints l es : ints l = true -> ints (apply_edits l es) = true.
+Proof.
+  intro H. unfold apply_edits.
+  apply (fold_left_inv (fun acc => ints acc = true) (fun _ : edit => True)); auto.
+  - intros a [[i f] v] Ha _. apply set_nth_forallb; [| exact Ha]. intros; apply apply_edit_ints; assumption.
+  - apply Forall_forall; auto.
+Qed.
+Lemma apply_edits_rel_ints l es : ints l = true -> ints (apply_edits_rel l es) = true.
+Proof.
+  intro H. unfold apply_edits_rel.
+  apply (fold_left_inv (fun acc => ints acc = true) (fun _ : edit => True)); auto.
+  - intros a [[i f] v] Ha _. apply set_nth_forallb; [| exact Ha]. intros x Hx.
+    destruct f; try (apply apply_edit_ints; assumption). destruct (is_wait x); [reflexivity | exact Hx].
+  - apply Forall_forall; auto.
+Qed.
+Lemma overwrite_abs_ints ms : ints ms = true -> ints (fold_left (fun acc m => insort m acc) ms []) = true.
+Proof.
+  intro H. apply (fold_left_inv (fun acc => ints acc = true) (fun m => intm m = true)).
+  - intros a b Ha Hb. apply insort_ints; assumption.
+  - apply ints_Forall; exact H.
+  - reflexivity.
+Qed.
+
+(* store-level *)
+Lemma getn_ints st i s : ints_store st = true -> getn st i = Ok s -> ints_seq s = true.
+Proof.
+  intros H E. unfold getn in E. destruct (nth_error st i) eqn:En; inversion E; subst.
+  unfold ints_store in H. rewrite forallb_forall in H. apply H. eapply nth_error_In; eauto.
+Qed.
+Lemma setn_ints st i s : ints_store st = true -> ints_seq s = true -> ints_store (setn st i s) = true.
+Proof. intros H Hs. unfold setn, ints_store. apply set_nth_forallb; [intros; exact Hs | exact H]. Qed.
+Lemma app_ints st l : ints_store st = true -> ints_store l = true -> ints_store (st ++ l) = true.
+Proof. intros H Hl. unfold ints_store. rewrite forallb_app. apply andb_true_iff. auto. Qed.
+
+Lemma on_obj_ints st i f : ints_store st = true ->
+  (forall s s', ints_seq s = true -> f s = Ok s' -> ints_seq s' = true) -> ints_store (fst (on_obj st i f)) = true.
+Proof.
+  intros H Hf. unfold on_obj. destruct (getn st i) as [s | e] eqn:Eg; [| exact H].
+  destruct (f s) as [s' | e] eqn:Ef; [| exact H]. cbn [fst]. apply setn_ints; [exact H |].
+  eapply Hf; [| exact Ef]. eapply getn_ints; eauto.
+Qed.
+
+Lemma read_abss_ints js : forall st st' rs, ints_store st = true -> read_abss st js = Ok (st', rs) ->
+  ints_store st' = true /\ intss rs = true.
+Proof.
+  induction js as [| j js IH]; intros st st' rs H E; cbn [read_abss] in E; [inversion E; subst; auto |].
+  destruct (getn st j) as [s | e] eqn:Eg; [| discriminate]. cbn [rbind] in E.
+  destruct (get_abs s) as [[s1 a] | e] eqn:Ea; [| discriminate]. cbn [rbind] in E.
+  destruct (get_abs_ints _ _ _ (getn_ints _ _ _ H Eg) Ea) as [H1 Ha].
+  destruct (read_abss (setn st j s1) js) as [[st1 rs1] | e] eqn:Er; [| discriminate]. cbn [rbind] in E.
+  inversion E; subst. destruct (IH _ _ _ (setn_ints _ _ _ H H1) Er) as [Hst Hrs].
+  split; [exact Hst |]. cbn [intss forallb]. rewrite Ha. exact Hrs.
+Qed.
+Lemma read_rels_ints js : forall st st' rs, ints_store st = true -> read_rels st js = Ok (st', rs) ->
+  ints_store st' = true /\ intss rs = true.
+Proof.
+  induction js as [| j js IH]; intros st st' rs H E; cbn [read_rels] in E; [inversion E; subst; auto |].
+  destruct (getn st j) as [s | e] eqn:Eg; [| discriminate]. cbn [rbind] in E.
+  destruct (get_rel s) as [[s1 a] | e] eqn:Ea; [| discriminate]. cbn [rbind] in E.
+  destruct (get_rel_ints _ _ _ (getn_ints _ _ _ H Eg) Ea) as [H1 Ha].
+  destruct (read_rels (setn st j s1) js) as [[st1 rs1] | e] eqn:Er; [| discriminate]. cbn [rbind] in E.
+  inversion E; subst. destruct (IH _ _ _ (setn_ints _ _ _ H H1) Er) as [Hst Hrs].
+  split; [exact Hst |]. cbn [intss forallb]. rewrite Ha. exact Hrs.
+Qed.
+
+Lemma lift_ints st r : ints_store st = true ->
+  (forall st' x, r = Ok (st', x) -> ints_store st' = true) -> ints_store (fst (lift st r)) = true.
+Proof. intros H Hr. unfold lift. destruct r as [[st' x] | e]; [eapply Hr; reflexivity | exact H]. Qed.
+
+Lemma mapM_forallb {A B} (f : A -> result B) (P : B -> bool) l : forall rs,
+  (forall x y, f x = Ok y -> P y = true) -> mapM f l = Ok rs -> forallb P rs = true.
+Proof.
+  induction l as [| a l IH]; intros rs Hf E; cbn [mapM] in E; [inversion E; reflexivity |].
+  destruct (f a) as [y | e] eqn:Ea; [| discriminate]. cbn [rbind] in E.
+  destruct (mapM f l) as [ys | e] eqn:El; [| discriminate]. cbn [rbind] in E. inversion E; subst.
+  cbn [forallb]. rewrite (Hf _ _ Ea), (IH _ Hf eq_refl). reflexivity.
+Qed.
+
+(* peel one `do x <- r; k` off a hypothesis  E : rbind r k = Ok _ *)
+Ltac bind1 E x Ex :=
+  match type of E with
+  | rbind ?r _ = Ok _ => destruct r as [x | ?] eqn:Ex; [cbn [rbind] in E | discriminate E]
+  end.
+
+Lemma seq_transpose_ints s k s' b : ints_seq s = true -> seq_transpose s k = Ok (s', b) -> ints_seq s' = true.
+Proof.
+  intros H E. unfold seq_transpose in E. bind1 E x Ex. destruct x as [s1 r].
+  destruct (get_rel_ints _ _ _ H Ex) as [H1 Hr].
+  pose proof (transpose_ints r k Hr) as Ht. destruct (transpose r k) as [r' shifted]. cbn [fst] in Ht.
+  assert (H2 : ints_seq (mkseq (s_abs s1) r' true false) = true)
+    by (apply ints_seq_mk; [apply ints_seq_abs; exact H1 | exact Ht]).
+  destruct shifted; [| inversion E; subst; exact H2].
+  bind1 E s3 E3. bind1 E s4 E4. inversion E; subst.
+  eapply seq_qnl_ints; [| exact E4]. eapply seq_normalise_ints; [| exact E3]. exact H2.
+Qed.
+Lemma seq_refresh_ints s s' : ints_seq s = true -> seq_refresh s = Ok s' -> ints_seq s' = true.
+Proof.
+  intros H E. unfold seq_refresh in E. destruct (_ && _); [discriminate |].
+  bind1 E x Ex. destruct x as [s1 a]. bind1 E y Ey. destruct y as [s2 r]. inversion E; subst.
+  destruct (get_abs_ints _ _ _ H Ex) as [H1 _]. destruct (get_rel_ints _ _ _ H1 Ey) as [H2 _]. exact H2.
+Qed.
+Lemma seq_qn_ints s steps values std dne s' :
+  ints_seq s = true -> seq_quantise_and_normalise s steps values std dne = Ok s' -> ints_seq s' = true.
+Proof.
+  intros H E. unfold seq_quantise_and_normalise in E. bind1 E s1 E1. bind1 E s2 E2.
+  eapply seq_normalise_ints; [| exact E]. eapply seq_qnl_ints; [| exact E2]. eapply seq_quantise_ints; eauto.
+Qed.
+
+Definition op_ints (o : op) : bool :=
+  match o with
+  | ONewAbs a => ints a
+  | ONewRel r => ints r
+  | OAddAbs _ m => intm m
+  | OAddRel _ m _ => intm m
+  | OConcatLit _ rs => intss rs
+  | OOverwriteAbs _ ms => ints ms
+  | OOverwriteRel _ ms => ints ms
+  | _ => true
+  end.
+
+Lemma ints_store_one s : ints_seq s = true -> ints_store [s] = true.
+Proof. intro H. unfold ints_store. cbn [forallb]. rewrite H. reflexivity. Qed.
+
+Theorem C11_step : forall st o, ints_store st = true -> op_ints o = true -> ints_store (fst (step st o)) = true.
+Proof.
+  intros st o Hst Ho. destruct o; cbn [step op_ints] in *.
+  - (* ONew *) cbn [fst]. apply app_ints; [exact Hst | reflexivity].
+  - (* ONewAbs *) cbn [fst]. apply app_ints; [exact Hst |]. apply ints_store_one. unfold seq_overwrite_abs.
+    apply ints_seq_mk; [apply overwrite_abs_ints; exact Ho | reflexivity].
+  - (* ONewRel *) cbn [fst]. apply app_ints; [exact Hst |]. apply ints_store_one. apply ints_seq_mk; [reflexivity | exact Ho].
+  - (* OCopy *) apply lift_ints; [exact Hst |]. intros st' x E. bind1 E s Es. inversion E; subst.
+    apply app_ints; [exact Hst |]. apply ints_store_one, seq_copy_ints. eapply getn_ints; eauto.
+  - (* OAddAbs *) apply on_obj_ints; [exact Hst |]. intros s s' Hs E. eapply upd_abs_ints; [exact Hs | | exact E].
+    intros; apply insort_ints; assumption.
+  - (* OAddRel *) apply on_obj_ints; [exact Hst |]. intros s s' Hs E. eapply upd_rel_ints; [exact Hs | | exact E].
+    intros a Ha. destruct idx; [apply py_insert_ints; assumption |].
+    rewrite ints_app, Ha. cbn [ints forallb]. fold (intm m). rewrite Ho. reflexivity.
+  - (* OConcat *) apply lift_ints; [exact Hst |]. intros st' x E. bind1 E s Es. bind1 E y Ey. destruct y as [s1 r].
+    bind1 E rs Ers. inversion E; subst.
+    destruct (get_rel_ints _ _ _ (getn_ints _ _ _ Hst Es) Ey) as [H1 Hr].
+    apply setn_ints; [exact Hst |]. apply ints_seq_mk; [apply ints_seq_abs; exact H1 |].
+    rewrite ints_app, Hr. apply ints_concat. eapply mapM_forallb; [| exact Ers].
+    intros j rj Ej. cbn beta in Ej. bind1 Ej t Et. bind1 Ej z Ez. destruct z as [t1 rj']. inversion Ej; subst.
+    eapply get_rel_ints; [| exact Ez]. apply seq_copy_ints. eapply getn_ints; eauto.
+  - (* OConcatLit *) apply lift_ints; [exact Hst |]. intros st' x E. bind1 E s Es. bind1 E y Ey. destruct y as [s1 r].
+    inversion E; subst. destruct (get_rel_ints _ _ _ (getn_ints _ _ _ Hst Es) Ey) as [H1 Hr].
+    apply setn_ints; [exact Hst |]. apply ints_seq_mk; [apply ints_seq_abs; exact H1 |].
+    rewrite ints_app, Hr. apply ints_concat. exact Ho.
+  - (* OMerge *) apply lift_ints; [exact Hst |]. intros st' x E. bind1 E s Es. bind1 E y Ey. destruct y as [s1 a].
+    bind1 E z Ez. destruct z as [st1 as_]. bind1 E s2 E2. bind1 E s3 E3. inversion E; subst.
+    destruct (get_abs_ints _ _ _ (getn_ints _ _ _ Hst Es) Ey) as [H1 Ha].
+    destruct (read_abss_ints _ _ _ _ (setn_ints _ _ _ Hst H1) Ez) as [Hst1 Has].
+    apply setn_ints; [exact Hst1 |]. eapply seq_normalise_ints; [| exact E3].
+    apply ints_seq_mk; [apply merge_abs_ints; assumption |]. apply ints_seq_rel. eapply getn_ints; eauto.
+  - (* OCutoff *) apply on_obj_ints; [exact Hst |]. intros s s' Hs E. eapply upd_abs_ints; [exact Hs | | exact E].
+    intros; apply cutoff_ints; assumption.
+  - (* ONormalise *) apply on_obj_ints; [exact Hst |]. intros s s' Hs E. eapply seq_normalise_ints; eauto.
+  - (* OPad *) apply on_obj_ints; [exact Hst |]. intros s s' Hs E. eapply upd_rel_ints; [exact Hs | | exact E].
+    intros; apply pad_ints; assumption.
+  - (* OSetChannel *) apply on_obj_ints; [exact Hst |]. intros s s' Hs E. eapply upd_rel_ints; [exact Hs | | exact E].
+    intros; apply set_channel_ints; assumption.
+  - (* OOverwriteAbs *) apply on_obj_ints; [exact Hst |]. intros s s' Hs E. inversion E; subst.
+    apply ints_seq_mk; [apply overwrite_abs_ints; exact Ho | apply ints_seq_rel; exact Hs].
+  - (* OOverwriteRel *) apply on_obj_ints; [exact Hst |]. intros s s' Hs E. inversion E; subst.
+    apply ints_seq_mk; [apply ints_seq_abs; exact Hs | exact Ho].
+  - (* OSplit *) apply lift_ints; [exact Hst |]. intros st' x E. bind1 E s Es. bind1 E y Ey. destruct y as [s1 r].
+    inversion E; subst. destruct (get_rel_ints _ _ _ (getn_ints _ _ _ Hst Es) Ey) as [H1 Hr].
+    apply app_ints; [apply setn_ints; assumption |].
+    pose proof (seq_split_ints r caps Hr) as Hs. unfold ints_store. rewrite forallb_forall. intros q Hq.
+    apply in_map_iff in Hq. destruct Hq as [l [El Hl]]. subst q. unfold intss in Hs. rewrite forallb_forall in Hs.
+    apply ints_seq_mk; [reflexivity | auto].
+  - (* OScale *) apply on_obj_ints; [exact Hst |]. intros s s' Hs E. eapply upd_rel_ints; [exact Hs | | exact E].
+    intros; apply scale_ints; assumption.
+  - (* OTranspose *) apply lift_ints; [exact Hst |]. intros st' x E. bind1 E s Es. bind1 E y Ey. destruct y as [s' b].
+    inversion E; subst. apply setn_ints; [exact Hst |]. eapply seq_transpose_ints; [| exact Ey]. eapply getn_ints; eauto.
+  - (* OQuantise *) apply on_obj_ints; [exact Hst |]. intros s s' Hs E. eapply seq_quantise_ints; eauto.
+  - (* OQnl *) apply on_obj_ints; [exact Hst |]. intros s s' Hs E. eapply seq_qnl_ints; eauto.
+  - (* OQuantNorm *) apply on_obj_ints; [exact Hst |]. intros s s' Hs E. eapply seq_qn_ints; eauto.
+  - (* ORefresh *) apply on_obj_ints; [exact Hst |]. intros s s' Hs E. eapply seq_refresh_ints; eauto.
+  - (* OReadAbs *) apply lift_ints; [exact Hst |]. intros st' x E. bind1 E s Es. bind1 E y Ey. destruct y as [s' a].
+    inversion E; subst. apply setn_ints; [exact Hst |]. eapply get_abs_ints; [| exact Ey]. eapply getn_ints; eauto.
+  - (* OReadRel *) apply lift_ints; [exact Hst |]. intros st' x E. bind1 E s Es. bind1 E y Ey. destruct y as [s' a].
+    inversion E; subst. apply setn_ints; [exact Hst |]. eapply get_rel_ints; [| exact Ey]. eapply getn_ints; eauto.
+  - (* OEquals *) apply lift_ints; [exact Hst |]. intros st' x E. bind1 E s Es. bind1 E y Ey. destruct y as [s1 a1].
+    destruct (get_abs_ints _ _ _ (getn_ints _ _ _ Hst Es) Ey) as [H1 _].
+    pose proof (setn_ints _ i _ Hst H1) as Hst1. bind1 E t Et. bind1 E z Ez. destruct z as [t1 a2].
+    destruct (get_abs_ints _ _ _ (getn_ints _ _ _ Hst1 Et) Ez) as [Ht1 _].
+    pose proof (setn_ints _ j _ Hst1 Ht1) as Hst2. bind1 E s2 E2. bind1 E s3 E3.
+    pose proof (seq_sort_abs_ints _ _ (getn_ints _ _ _ Hst2 E2) E3) as H3.
+    pose proof (setn_ints _ i _ Hst2 H3) as Hst3.
+    destruct (interleaved _ _ _ _); [| inversion E; subst; exact Hst3].
+    bind1 E t2 Et2. bind1 E t3 Et3.
+    pose proof (seq_sort_abs_ints _ _ (getn_ints _ _ _ Hst3 Et2) Et3) as Ht3.
+    pose proof (setn_ints _ j _ Hst3 Ht3) as Hst4.
+    destruct (equals _ _ _ _ _ _); inversion E; subst; exact Hst4.
+  - (* OPairings *) apply on_obj_ints; [exact Hst |]. intros s s' Hs E. eapply seq_sort_abs_ints; eauto.
+  - (* ODuration *) apply lift_ints; [exact Hst |]. intros st' x E. bind1 E s Es. bind1 E y Ey. destruct y as [s' a].
+    destruct (last_opt a); inversion E; subst;
+      (apply setn_ints; [exact Hst |]; eapply get_abs_ints; [| exact Ey]; eapply getn_ints; eauto).
+  - (* OEditAbs *) apply on_obj_ints; [exact Hst |]. intros s s' Hs E. unfold seq_edit_abs in E.
+    bind1 E y Ey. destruct y as [s1 a]. inversion E; subst. destruct (get_abs_ints _ _ _ Hs Ey) as [H1 Ha].
+    apply ints_seq_mk; [apply sort_abs_ints, apply_edits_ints; exact Ha | apply ints_seq_rel; exact H1].
+  - (* OEditRel *) apply on_obj_ints; [exact Hst |]. intros s s' Hs E. unfold seq_edit_rel in E.
+    bind1 E y Ey. destruct y as [s1 a]. inversion E; subst. destruct (get_rel_ints _ _ _ Hs Ey) as [H1 Ha].
+    apply ints_seq_mk; [apply ints_seq_abs; exact H1 | apply apply_edits_rel_ints; exact Ha].
+  - (* OBarInit *) apply lift_ints; [exact Hst |]. intros st' x E. bind1 E s Es. bind1 E y Ey. destruct y as [s1 r].
+    destruct (get_rel_ints _ _ _ (getn_ints _ _ _ Hst Es) Ey) as [H1 Hr].
+    pose proof (bar_init_full_ints r num den Hr) as Hb. destruct (bar_init_full r num den) as [r' e].
+    inversion E; subst. apply setn_ints; [exact Hst |].
+    apply ints_seq_mk; [apply ints_seq_abs; exact H1 | exact Hb].
+  - (* OBarCopy *) apply lift_ints; [exact Hst |]. intros st' x E. bind1 E s Es. bind1 E y Ey. destruct y as [c1 r].
+    bind1 E r' Er. inversion E; subst.
+    destruct (get_rel_ints _ _ _ (seq_copy_ints _ (getn_ints _ _ _ Hst Es)) Ey) as [H1 Hr].
+    apply app_ints; [exact Hst |]. apply ints_store_one.
+    apply ints_seq_mk; [apply ints_seq_abs; exact H1 | eapply bar_init_ints; eauto].
+  - (* OSplitBars *) apply lift_ints; [exact Hst |]. intros st' x E. bind1 E y Ey. destruct y as [st0 l0].
+    bind1 E z Ez. destruct z as [st0' l0']. bind1 E m Em. bind1 E w Ew. destruct w as [m1 ma].
+    bind1 E v Ev. destruct v as [st2 rels].
+    destruct (read_abss_ints _ _ _ _ Hst Ey) as [H0 _]. destruct (read_rels_ints _ _ _ _ H0 Ez) as [H0' _].
+    destruct (get_abs_ints _ _ _ (getn_ints _ _ _ H0' Em) Ew) as [Hm1 _].
+    destruct (read_rels_ints _ _ _ _ (setn_ints _ meta _ H0' Hm1) Ev) as [H2 Hrels].
+    destruct (split_bars rels ma qnl) as [bars | e] eqn:Eb; inversion E; subst; [| exact H2].
+    apply app_ints; [exact H2 |]. pose proof (split_bars_ints _ _ _ _ Hrels Eb) as Hbars.
+    unfold ints_store. rewrite forallb_forall. intros q Hq. apply in_map_iff in Hq. destruct Hq as [b [Eb' Hb]].
+    subst q. apply in_concat in Hb. destruct Hb as [bs [Hbs Hb]]. rewrite forallb_forall in Hbars.
+    specialize (Hbars _ Hbs). unfold bars_ints in Hbars. rewrite forallb_forall in Hbars.
+    apply ints_seq_mk; [reflexivity | auto].
+Qed.
+
+(* ---------------------------------------------------------------- histories *)
+Lemma run_cons st o ops : fst (run st (o :: ops)) = fst (run (fst (step st o)) ops).
+Proof. cbn [run]. destruct (step st o) as [st1 x]. cbn [fst]. destruct (run st1 ops). reflexivity. Qed.
+
+Theorem C11_history : forall ops st, ints_store st = true -> forallb op_ints ops = true ->
+  ints_store (fst (run st ops)) = true.
+Proof.
+  induction ops as [| o ops IH]; intros st Hst Ho; [exact Hst |].
+  cbn [forallb] in Ho. apply andb_true_iff in Ho. destruct Ho as [Ho Hops].
+  rewrite run_cons. apply IH; [apply C11_step; assumption | exact Hops].
+Qed.
+
+(* reading a view of an integer store returns integer-typed times (the observable outputs) *)
+Theorem C11_read : forall st i, ints_store st = true ->
+  (forall l, snd (step st (OReadAbs i)) = OMsgs l -> ints l = true) /\
+  (forall l, snd (step st (OReadRel i)) = OMsgs l -> ints l = true).
+Proof.
+  intros st i Hst. split; intros l E; cbn [step] in E; unfold lift in E.
+  - destruct (getn st i) as [s | e] eqn:Es; cbn [rbind] in E; [| discriminate].
+    destruct (get_abs s) as [[s' a] | e] eqn:Ea; cbn [rbind snd] in E; [| discriminate]. inversion E; subst.
+    eapply get_abs_ints; [| exact Ea]. eapply getn_ints; eauto.
+  - destruct (getn st i) as [s | e] eqn:Es; cbn [rbind] in E; [| discriminate].
+    destruct (get_rel s) as [[s' a] | e] eqn:Ea; cbn [rbind snd] in E; [| discriminate]. inversion E; subst.
+    eapply get_rel_ints; [| exact Ea]. eapply getn_ints; eauto.
+Qed.
+
+(* non-vacuity *)
+Definition ex_store : store :=
+  [seq_of_rel [mk_on 0 60 100 0 false; mk_wait 0 30 false; mk_off 0 60 0 false; mk_wait 0 7 false];
+   seq_of_abs [mk_ts 0 3 4 0 false; mk_on 1 62 90 5 false; mk_off 1 62 50 false]].
+Definition ex_ops : list op :=
+  [OPad 0 96; OMerge 0 [1%nat]; OQuantNorm 0 [24; 12] [24; 48]; OSplit 0 [48; 48]; OBarInit 2 3 4;
+   OAddAbs 1 (mk_on 1 70 80 12 false); OSplitBars [0%nat] 1 true; OTranspose 0 40; OScale 1 2; OCutoff 0 24 12].
+Example C11_history_nonvacuous :
+  ints_store ex_store = true /\ forallb op_ints ex_ops = true /\
+  existsb (fun x => match x with OErr _ => true | _ => false end) (snd (run ex_store ex_ops)) = false /\
+  length (fst (run ex_store ex_ops)) = 6%nat.
+Proof. vm_compute. repeat split; reflexivity. Qed.
+
+(* ---------------------------------------------------------------- detokenise *)
+Lemma foldM_inv {A B} (P : B -> Prop) (f : B -> A -> result B) l :
+  (forall b a b', P b -> f b a = Ok b' -> P b') -> forall b r, P b -> foldM f l b = Ok r -> P r.
+Proof.
+  intro Hf. induction l as [| a l IH]; intros b r Hb E; cbn [foldM] in E; [inversion E; subst; exact Hb |].
+  destruct (f b a) as [b' | e] eqn:Ef; [| discriminate]. cbn [rbind] in E. eapply IH; [| exact E]. eauto.
+Qed.
+
+Lemma detok_step_ints c s t s' : intss (d_seqs s) = true -> detok_step c s t = Ok s' -> intss (d_seqs s') = true.
+Proof.
+  intros H E. destruct t; cbn [detok_step] in E; try (inversion E; subst; exact H).
+  - (* TBar *) inversion E; subst. cbn [set_clock d_seqs]. apply forallb_forall. intros l Hl.
+    apply in_map_iff in Hl. destruct Hl as [a [Ea Ha]]. subst l. apply insort_ints; [reflexivity |].
+    unfold intss in H. rewrite forallb_forall in H. auto.
+  - (* TNote *) destruct (py_index _ _) as [i |]; [| discriminate]. inversion E; subst. cbn [d_seqs].
+    apply set_nth_forallb; [| exact H]. intros a Ha. apply insort_ints; [reflexivity |].
+    apply insort_ints; [reflexivity | exact Ha].
+  - (* TTsg *) destruct (0 <? d_tbar s); [inversion E; subst; exact H |].
+    destruct (d =? 0); [discriminate |].
+    destruct (if c_simplify c && (n mod 2 =? 0) && (d mod 2 =? 0) then (n / 2, d / 2) else (n, d)) as [n' d'].
+    inversion E; subst. cbn [set_clock d_seqs]. destruct (_ || _); [| exact H].
+    destruct (d_seqs s) as [| a r]; [reflexivity |]. cbn [intss forallb] in *. btrue; auto.
+    apply insort_ints; [reflexivity | assumption].
+Qed.
+
+Theorem C11_detokenise : forall c ts seqs, detokenise c ts = Ok seqs ->
+  forall l m, In l seqs -> In m l -> m_tf m = false.
+Proof.
+  intros c ts seqs E l m Hl Hm. unfold detokenise in E.
+  destruct (foldM (detok_step c) ts (dstate0 c)) as [s | e] eqn:Ef; [| discriminate]. cbn [rbind] in E.
+  inversion E; subst. clear E.
+  assert (Hs : intss (d_seqs s) = true).
+  { apply (foldM_inv (fun s => intss (d_seqs s) = true) (detok_step c) ts) with (b := dstate0 c).
+    - intros b a b' Hb Eb. eapply detok_step_ints; eauto.
+    - unfold dstate0. cbn [d_seqs]. apply forallb_forall. intros x Hx. apply in_map_iff in Hx.
+      destruct Hx as [z [Ez _]]. subst. reflexivity.
+    - exact Ef. }
+  unfold intss in Hs. rewrite forallb_forall in Hs. specialize (Hs _ Hl).
+  apply intm_tf. exact (proj1 (ints_In l) Hs m Hm).
+Qed.
+
+Definition ex_cfg : cfg := make_cfg 2 21 108 None None 8 true false false false true.
+Definition ex_toks : list tok := [TSta; TTsg 4 8; TTrk 1; TVal 24; TVel 127; TNote None 60 None None; TRest 24; TBar; TSto].
+Example C11_detokenise_nonvacuous :
+  exists seqs, detokenise ex_cfg ex_toks = Ok seqs /\ map (@length msg) seqs = [2%nat; 3%nat].
+Proof. eexists. split; vm_compute; reflexivity. Qed.
+
+(* ---------------------------------------------------------------- token rendering *)
+Fixpoint str_all (p : ascii -> bool) (s : string) : bool :=
+  match s with EmptyString => true | String a s' => p a && str_all p s' end.
+Definition is_digit (a : ascii) : bool := (48 <=? nat_of_ascii a)%nat && (nat_of_ascii a <=? 57)%nat.
+(* non-empty and made of the characters '0'..'9' only: in particular no '.', no 'e', no sign *)
+Definition digits_only (s : string) : bool := (0 <? String.length s)%nat && str_all is_digit s.
+Definition no_dot (s : string) : bool := str_all (fun a => negb (Ascii.eqb a "."%char)) s.
+
+Lemma str_all_app p a b : str_all p (a ++ b)%string = str_all p a && str_all p b.
+Proof. induction a as [| x a IH]; cbn [String.append str_all]; [reflexivity |]. rewrite IH, andb_assoc. reflexivity. Qed.
+Lemma str_all_impl (p q : ascii -> bool) s : (forall a, p a = true -> q a = true) -> str_all p s = true -> str_all q s = true.
+Proof.
+  intro Hpq. induction s as [| x s IH]; cbn [str_all]; [reflexivity |]. intro H. btrue; auto.
+Qed.
+Lemma string_of_uint_digits d : str_all is_digit (DecimalString.NilEmpty.string_of_uint d) = true.
+Proof. induction d; cbn [DecimalString.NilEmpty.string_of_uint str_all]; rewrite ?IHd; reflexivity. Qed.
+Lemma digits_digits n : digits_only (digits n) = true.
+Proof.
+  unfold digits, DecimalString.NilZero.string_of_uint. destruct (N.to_uint n) eqn:E; try reflexivity;
+    unfold digits_only; rewrite string_of_uint_digits; reflexivity.
+Qed.
+Lemma zeros_digits n : str_all is_digit (zeros n) = true.
+Proof. induction n as [| n IH]; [reflexivity |]. cbn [zeros String.append str_all]. rewrite IH. reflexivity. Qed.
+Lemma length_app_pos a b : (0 <? String.length b)%nat = true -> (0 <? String.length (a ++ b)%string)%nat = true.
+Proof. intro H. destruct a; [exact H | reflexivity]. Qed.
+Lemma fmt_digits w z : 0 <= z -> digits_only (fmt w z) = true.
+Proof.
+  intro Hz. assert (Hp : digits_only (padded w (digits (Z.to_N z))) = true).
+  { pose proof (digits_digits (Z.to_N z)) as Hd. unfold digits_only in *. btrue.
+    - unfold padded. apply length_app_pos. assumption.
+    - unfold padded. rewrite str_all_app, zeros_digits. assumption. }
+  destruct z; [exact Hp | exact Hp | lia].
+Qed.
+
+Lemma render_part_digits pfx w v : 0 <= v ->
+  exists d, render_part pfx w v = (pfx ++ "_" ++ d)%string /\ digits_only d = true.
+Proof. intro Hv. exists (fmt w v). split; [reflexivity | apply fmt_digits; exact Hv]. Qed.
+
+Theorem C11_tokens : forall v, 0 <= v ->
+  (exists d, render_tok (TRest v) = (PFX_REST ++ "_" ++ d)%string /\ digits_only d = true) /\
+  (exists d, render_tok (TVal v) = (PFX_VALUE ++ "_" ++ d)%string /\ digits_only d = true) /\
+  no_dot (render_tok (TRest v)) = true /\ no_dot (render_tok (TVal v)) = true.
+Proof.
+  intros v Hv. cbn [render_tok].
+  assert (Hnd : forall pfx, no_dot pfx = true -> no_dot (render_part pfx 2 v) = true).
+  { intros pfx Hp. unfold render_part, no_dot in *. rewrite !str_all_app, Hp.
+    pose proof (fmt_digits 2 v Hv) as Hd. unfold digits_only in Hd. apply andb_true_iff in Hd. destruct Hd as [_ Hd].
+    assert (Hf : str_all (fun a => negb (Ascii.eqb a "."%char)) (fmt 2 v) = true).
+    { eapply str_all_impl; [| exact Hd]. intros a Ha.
+      destruct (Ascii.eqb a "."%char) eqn:Ea; [| reflexivity]. apply Ascii.eqb_eq in Ea. subst a. discriminate Ha. }
+    rewrite Hf. reflexivity. }
+  repeat split; try (apply render_part_digits; exact Hv); apply Hnd; reflexivity.
+Qed.
+
+Example C11_tokens_example : render_tok (TRest 24) = "rst_24"%string /\ render_tok (TVal 7) = "val_07"%string.
+Proof. split; vm_compute; reflexivity. Qed.
+
+(* ---------------------------------------------------------------- summary of the value-level lemmas *)
+Theorem C11_list_ops :
+  (forall l, ints l = true -> ints (to_abs l) = true) /\
+  (forall l, ints l = true -> ints (to_rel l) = true) /\
+  (forall l, ints l = true -> ints (sort_abs l) = true) /\
+  (forall x l, intm x = true -> ints l = true -> ints (insort x l) = true) /\
+  (forall l, ints l = true -> ints (normalise l) = true) /\
+  (forall l p, ints l = true -> ints (pad l p false) = true) /\
+  (forall l c, ints l = true -> ints (set_channel l c) = true) /\
+  (forall l k, ints l = true -> ints (scale l k) = true) /\
+  (forall l k, ints l = true -> ints (fst (transpose l k)) = true) /\
+  (forall l caps, ints l = true -> intss (seq_split l caps) = true) /\
+  (forall a os, ints a = true -> intss os = true -> ints (merge_abs a os) = true) /\
+  (forall l mx red, ints l = true -> ints (cutoff l mx red) = true) /\
+  (forall l steps r, ints l = true -> quantise l steps = Ok r -> ints r = true) /\
+  (forall l values std dne, ints l = true -> ints (quantise_note_lengths l values std dne) = true) /\
+  (forall r num den, ints r = true -> ints (fst (bar_init_full r num den)) = true) /\
+  (forall rels meta qnl bars, intss rels = true -> split_bars rels meta qnl = Ok bars ->
+     forallb (forallb (fun b => ints (b_rel b))) bars = true).
+Proof.
+  repeat split.
+  - exact to_abs_ints. - exact to_rel_ints. - exact sort_abs_ints. - exact insort_ints. - exact normalise_ints.
+  - exact pad_ints. - exact set_channel_ints. - exact scale_ints. - exact transpose_ints. - exact seq_split_ints.
+  - exact merge_abs_ints. - exact cutoff_ints. - exact quantise_ints. - exact quantise_note_lengths_ints.
+  - exact bar_init_full_ints. - exact split_bars_ints.
+Qed.
+
+(* ---------------------------------------------------------------- no token of any kind contains a '.' *)
+Lemma no_dot_app a b : no_dot (a ++ b)%string = no_dot a && no_dot b.
+Proof. apply str_all_app. Qed.
+Lemma digits_no_dot s : digits_only s = true -> no_dot s = true.
+Proof.
+  unfold digits_only, no_dot. intro H. apply andb_true_iff in H. destruct H as [_ H].
+  eapply str_all_impl; [| exact H]. intros a Ha.
+  destruct (Ascii.eqb a "."%char) eqn:Ea; [| reflexivity]. apply Ascii.eqb_eq in Ea. subst a. discriminate Ha.
+Qed.
+Lemma fmt_no_dot w z : no_dot (fmt w z) = true.
+Proof.
+  assert (Hp : forall w n, no_dot (padded w (digits n)) = true).
+  { intros w' n. unfold padded. rewrite no_dot_app. apply andb_true_iff. split.
+    - eapply str_all_impl; [| apply zeros_digits]. intros a Ha.
+      destruct (Ascii.eqb a "."%char) eqn:Ea; [| reflexivity]. apply Ascii.eqb_eq in Ea. subst a. discriminate Ha.
+    - apply digits_no_dot, digits_digits. }
+  destruct z; cbn [fmt]; [apply Hp | apply Hp |]. rewrite no_dot_app, Hp. reflexivity.
+Qed.
+Lemma render_part_no_dot pfx w z : no_dot pfx = true -> no_dot (render_part pfx w z) = true.
+Proof. intro H. unfold render_part. rewrite !no_dot_app, H, fmt_no_dot. reflexivity. Qed.
+Lemma join_dash_no_dot l : forallb no_dot l = true -> no_dot (join_dash l) = true.
+Proof.
+  induction l as [| x l IH]; [reflexivity |]. cbn [forallb]. intro H. apply andb_true_iff in H. destruct H as [Hx Hl].
+  cbn [join_dash]. destruct l as [| y l']; [exact Hx |]. rewrite !no_dot_app, Hx, (IH Hl). reflexivity.
+Qed.
+Theorem C11_tokens_no_dot : forall t, no_dot (render_tok t) = true.
+Proof.
+  destruct t; cbn [render_tok]; try reflexivity; try (apply render_part_no_dot; reflexivity).
+  - apply join_dash_no_dot. rewrite !forallb_app. cbn [forallb].
+    rewrite (render_part_no_dot PFX_PITCH 3 pit eq_refl).
+    destruct trk, val, vel; cbn [forallb]; rewrite ?render_part_no_dot; reflexivity.
+  - rewrite !no_dot_app, !fmt_no_dot. reflexivity.
 Qed.
